@@ -322,6 +322,7 @@ REG.contract(
                 "len(self.data) + 1 <= len(order)",
                 _SUB,
                 "self.max_size == (max_size if max_size >= 1 else 1)",
+                "len(self.data) >= self.max_size or len(self.data) == len(old_self.data)",
             ],
             decreases=["len(self.data)"],
             modifies={"self.data": T.map_of(T.int, T.ref(NODE), sized=True)},
